@@ -35,6 +35,7 @@ import (
 	"sync"
 	"sync/atomic"
 	"syscall"
+	"time"
 
 	"github.com/cloudwego/dynamicgo/conv"
 	"github.com/cloudwego/dynamicgo/conv/j2p"
@@ -273,6 +274,7 @@ var c12kindNames = map[int]string{
 	15: "proto.GetByPath", 16: "proto.PathNode.Load+Marshal", 17: "proto.MarshalTo", 18: "proto.descriptor-lookups",
 	19: "thrift.BinaryProtocol(pooled).WriteAnyWithDesc", 20: "thrift.ReadAnyWithDesc", 21: "thrift.Skip",
 	22: "j2t.Do(http-mapped, ctx request)", 23: "j2t.Do(http-mapped, ONE request object shared by all goroutines)",
+	24: "thrift.NewNode* constructors (result = the node's own buffer)", 25: "j2t.HTTPConv.Do small bodies", 26: "t2j.HTTPConv.Do small bodies",
 }
 
 func c12msg(err error) string {
@@ -980,6 +982,157 @@ service GSvc {
 		}
 	}
 
+	// values built by the NewNode* constructors: the node's bytes ARE the result (no copy-out), so the buffer behind them
+	// must never reach a pool. Values of 1..40 fixed-width elements, encodings below and above the constructors' initial
+	// buffers (64 bytes for NewNodeAny, 64 per element for lists/structs, 128 per map pair), growth during fixed-size writes
+	// (i64, i32, double, length prefix, field id) and during appends (string payload)
+	{
+		gopts := &generic.Options{}
+		i64s := func(k, base int) []interface{} {
+			vs := make([]interface{}, 0, k)
+			for i := 0; i < k; i++ {
+				vs = append(vs, int64(base*1000+i))
+			}
+			return vs
+		}
+		i32s := func(k, base int) []interface{} {
+			vs := make([]interface{}, 0, k)
+			for i := 0; i < k; i++ {
+				vs = append(vs, int32(base*100+i))
+			}
+			return vs
+		}
+		node := func(name string, mk func() generic.Node, ordered bool) {
+			w.addOp(24, name, false, func() c12out {
+				n := mk()
+				raw := n.Raw()
+				if !ordered {
+					// Go map iteration order: only the length is a function of the input; the bytes are still kept
+					return c12out{data: []byte(fmt.Sprint(n.Type(), len(raw))), keep: [][]byte{raw}}
+				}
+				return c12out{data: append([]byte(nil), raw...), keep: [][]byte{raw}}
+			})
+		}
+		for _, k := range []int{1, 2, 6, 7, 8, 9, 15, 16, 17, 33, 40} {
+			k := k
+			node(fmt.Sprintf("NewNodeAny(list of %d i64)", k), func() generic.Node { return generic.NewNodeAny(i64s(k, k), gopts) }, true)
+			node(fmt.Sprintf("NewNodeAny(list of %d i32)", k), func() generic.Node { return generic.NewNodeAny(i32s(k, k), gopts) }, true)
+			node(fmt.Sprintf("NewNodeList(list of %d lists of 9 i64)", k), func() generic.Node {
+				vs := make([]interface{}, 0, k)
+				for i := 0; i < k; i++ {
+					vs = append(vs, i64s(9, i))
+				}
+				return generic.NewNodeList(vs)
+			}, true)
+			node(fmt.Sprintf("NewNodeSet(%d doubles)", k), func() generic.Node {
+				vs := make([]interface{}, 0, k)
+				for i := 0; i < k; i++ {
+					vs = append(vs, float64(i)+0.5)
+				}
+				return generic.NewNodeSet(vs)
+			}, true)
+			node(fmt.Sprintf("NewNodeMap(1 pair, value list of %d i64)", k), func() generic.Node {
+				return generic.NewNodeMap(map[interface{}]interface{}{"key": i64s(k*3, k)}, gopts)
+			}, true)
+			node(fmt.Sprintf("NewNodeStruct(1 field, list of %d i64)", k), func() generic.Node {
+				return generic.NewNodeStruct(map[thrift.FieldID]interface{}{3: i64s(k*2, k)}, gopts)
+			}, true)
+			node(fmt.Sprintf("NewNodeAny(struct, %d fields)", k), func() generic.Node {
+				m := map[thrift.FieldID]interface{}{}
+				for i := 0; i < k; i++ {
+					m[thrift.FieldID(i+1)] = int64(i)
+				}
+				m[100] = fmt.Sprintf("%060d", k)
+				m[101] = i64s(k, k)
+				return generic.NewNodeAny(m, gopts)
+			}, false)
+		}
+		node("NewNodeList(2 strings of 100)", func() generic.Node {
+			return generic.NewNodeList([]interface{}{fmt.Sprintf("%0100d", 1), fmt.Sprintf("%0100d", 2)})
+		}, true)
+		node("NewNodeAny(string of 300)", func() generic.Node { return generic.NewNodeAny(strings.Repeat("s", 300), gopts) }, true)
+		node("NewNodeString/Binary/Int64", func() generic.Node {
+			a, b, c := generic.NewNodeString(strings.Repeat("q", 90)), generic.NewNodeBinary(bytes.Repeat([]byte{7}, 90)), generic.NewNodeInt64(-5)
+			return generic.NewNodeList([]interface{}{string(a.Raw()), string(b.Raw()), string(c.Raw())})
+		}, true)
+	}
+
+	// HTTP converters with SMALL bodies (encoded struct of 1..~40 bytes): several converters (method names of different
+	// length), several requests per converter; the message returned for one request must stay what it was
+	{
+		const smIDL = `namespace go c12sm
+struct Tiny {
+    1: optional string Msg,
+    2: optional i32 Code (api.query = "code"),
+}
+struct TinyResp {
+    1: optional string Msg,
+    2: optional i32 Code (api.http_code = "code"),
+}
+service SmSvc {
+    TinyResp Echo(1: Tiny req)
+    TinyResp EchoLongerName13(1: Tiny req)
+    TinyResp E(1: Tiny req)
+}
+`
+		ssvc, err := thrift.Options{}.NewDescritorFromContent(ctx, "c12sm.thrift", smIDL, map[string]string{}, false)
+		if err != nil {
+			die("C12: small idl: %v", err)
+		}
+		bodies := []string{`{}`, `{"Msg":""}`, `{"Msg":"a"}`, `{"Msg":"bb"}`, `{"Msg":"abcd"}`, `{"Msg":"12345678"}`, `{"Msg":"0123456789ab"}`, `{"Msg":"0123456789abcdef"}`,
+			`{"Msg":"0123456789abcdefghijklmn"}`, `{"Msg":"0123456789abcdefghijklmnopqrstuv"}`, `{"Code":7}`, `{"Msg":"x","Code":7}`}
+		for _, fname := range []string{"Echo", "EchoLongerName13", "E"} {
+			fn := ssvc.Functions()[fname]
+			hj := j2t.NewHTTPConv(meta.EncodingThriftBinary, fn)
+			ht := t2j.NewHTTPConv(meta.EncodingThriftBinary, fn)
+			tinyResp := fn.Response().Struct().FieldById(0).Type()
+			for bi, body := range bodies {
+				body := body
+				url := "http://localhost/sm"
+				if bi%3 == 2 {
+					url = "http://localhost/sm?code=9"
+				}
+				w.addOp(25, fmt.Sprintf("j2t.HTTPConv(%s).Do small body %d", fname, bi), false, func() c12out {
+					req, err := dhttp.NewHTTPRequestFromUrl("POST", url, strings.NewReader(body))
+					if err != nil {
+						return c12out{err: true, data: []byte("newrequest")}
+					}
+					out, err := hj.Do(ctx, req, conv.Options{})
+					return c12out{data: append([]byte(nil), out...), err: err != nil, keep: [][]byte{out}, msg: c12msg(err)}
+				})
+				rb, err := j2tcvs[0].Do(ctx, tinyResp, []byte(body))
+				if err != nil {
+					continue
+				}
+				msg, err := thrift.WrapBinaryBody(rb, fname, thrift.REPLY, 0, int32(bi))
+				if err != nil {
+					continue
+				}
+				mb := w.in.add(fmt.Sprintf("small-reply-%s-%d", fname, bi), msg)
+				w.addOp(26, fmt.Sprintf("t2j.HTTPConv(%s).Do small body %d", fname, bi), false, func() c12out {
+					resp := dhttp.NewHTTPResponse()
+					resp.StatusCode = 200
+					if err := ht.Do(ctx, resp, mb, conv.Options{}); err != nil {
+						return c12out{err: true, msg: c12msg(err)}
+					}
+					var rbody []byte
+					if resp.Response.Body != nil {
+						rbody, _ = ioutil.ReadAll(resp.Response.Body)
+					}
+					return c12out{data: c12cat(rbody, []byte(fmt.Sprint(resp.StatusCode))), keep: [][]byte{rbody}}
+				})
+				w.addOp(26, fmt.Sprintf("t2j.HTTPConv(%s).DoInto small body %d", fname, bi), false, func() c12out {
+					resp := dhttp.NewHTTPResponse()
+					buf := make([]byte, 0, 8)
+					if err := ht.DoInto(ctx, resp, mb, &buf, conv.Options{}); err != nil {
+						return c12out{err: true, msg: c12msg(err)}
+					}
+					return c12out{data: append([]byte(nil), buf...), keep: [][]byte{buf}}
+				})
+			}
+		}
+	}
+
 	// t2j HTTP: a REPLY message around a Resp struct (built alone with j2t on the Resp descriptor)
 	ht := t2j.NewHTTPConv(meta.EncodingThriftBinary, fnM)
 	for d := 0; d < 3; d++ {
@@ -1603,6 +1756,75 @@ service S { string M(1: Q req) }
 	out.emit(1207, fi(2), fx(do(w2)), fx(do(mk(u2, "h2", "c1"))), fx(first))
 }
 
+// sequential retention: every operation that hands a buffer to its caller is called, the result is kept (the slice itself
+// and a private copy taken right after the call), a handful of OTHER pool users run (PathNode.Marshal, MarshalTo, t2j, j2t,
+// the HTTP converters, the same converter with another request), then the kept result is read again
+func (w *c12world) retainSeq(r *rng) {
+	byKind := map[int][]int{}
+	for i, op := range w.ops {
+		if !op.fail && !w.oracle[i].err && !w.oracle[i].pan {
+			byKind[op.kind] = append(byKind[op.kind], i)
+		}
+	}
+	var users []int // the operations run in between
+	for _, k := range []int{12, 13, 3, 1, 5, 25, 26, 24, 16, 17, 7} {
+		users = append(users, byKind[k]...)
+	}
+	if len(users) == 0 {
+		return
+	}
+	var ks []int
+	for k := range byKind {
+		ks = append(ks, k)
+	}
+	sort.Ints(ks)
+	runtime.GOMAXPROCS(1)
+	for _, k := range ks {
+		ops := byKind[k]
+		calls, good, any := 0, 1, false
+		n := len(ops)
+		if n > 120 {
+			n = 120
+		}
+		for j := 0; j < n; j++ {
+			i := ops[j]
+			if len(byKind[k]) > 120 {
+				i = ops[r.intn(len(ops))]
+			}
+			res := c12call(w.ops[i].run)
+			calls++
+			var kept, copies [][]byte
+			for _, b := range res.keep {
+				if len(b) > 0 {
+					kept = append(kept, b)
+					copies = append(copies, append([]byte(nil), b...))
+				}
+			}
+			if len(kept) == 0 {
+				continue
+			}
+			any = true
+			// first the same kind again (same converter, another request), then other pool users
+			for m := 0; m < 2; m++ {
+				c12call(w.ops[ops[r.intn(len(ops))]].run)
+			}
+			for m := 0; m < 6; m++ {
+				c12call(w.ops[users[r.intn(len(users))]].run)
+			}
+			calls += 8
+			for x := range kept {
+				if !bytes.Equal(kept[x], copies[x]) {
+					good = 0
+					c12report("C12-MISMATCH what=retained phase=sequential op=%q (the result changed after 8 later calls)", w.ops[i].name)
+				}
+			}
+		}
+		if any {
+			out.emit(1208, fi(k), fi(calls), fi(good))
+		}
+	}
+}
+
 // error exits: after K failing calls of one kind in a row, successful calls still give the oracle result
 func (w *c12world) errorExits(r *rng) {
 	byKind := map[int][]int{}
@@ -1648,7 +1870,9 @@ func (w *c12world) errorExits(r *rng) {
 
 func genC12(r *rng, n int) {
 	seed := r.s
+	tw := time.Now()
 	w := c12buildWorld(r.fork())
+	fmt.Fprintf(os.Stderr, "C12-STAGE world+oracle %.1fs\n", time.Since(tw).Seconds())
 	// the sequential phase (fixtures + every operation alone, twice) must have left inputs and descriptors alone and
 	// every operation must have returned the same thing twice
 	seqInputsChanged := false
@@ -1677,10 +1901,20 @@ func genC12(r *rng, n int) {
 		prot = c12mem.protect()
 	}
 	fmt.Fprintf(os.Stderr, "C12-WORLD ops=%d inputs=%d descriptor_dumps=%d unstable_alone=%d readonly_input_chunks=%d/%d\n", len(w.ops), len(w.in.live), len(w.dumps), w.unstable, prot, len(c12mem.chunks))
+	t0 := time.Now()
+	stage := func(name string) {
+		fmt.Fprintf(os.Stderr, "C12-STAGE %s %.1fs\n", name, time.Since(t0).Seconds())
+		t0 = time.Now()
+	}
 	c12recycleThrift(w, r.fork())
 	c12recycleProto(w, r.fork())
+	stage("recycle-scenarios")
 	w.errorExits(r.fork())
+	stage("error-exit-sweep")
+	w.retainSeq(r.fork())
+	stage("sequential-retention")
 	c12poolMiss(r.fork())
+	stage("pool-miss-scenario")
 
 	Gs := []int{1, 4, 8, 16, 32, 64}
 	Ps := []int{1, 2, 16}
@@ -1719,9 +1953,27 @@ func genC12(r *rng, n int) {
 			// several descriptors interleaved on every goroutine, so that a pooled state machine left behind by a failing
 			// conversion is picked up by a valid one
 			for i, op := range w.ops {
-				if op.kind == 22 || op.kind == 23 || op.kind == 5 {
+				if op.kind == 22 || op.kind == 23 || op.kind == 5 || op.kind == 25 {
 					mix = append(mix, i)
 				}
+			}
+		} else if round%6 == 1 {
+			// retention rounds: the operations whose result is a buffer of their own (node constructors, HTTP converters with
+			// small bodies) make up half of the calls, the other half are pool users of every kind
+			var focus, back []int
+			for i, op := range w.ops {
+				switch op.kind {
+				case 24, 25, 26:
+					focus = append(focus, i)
+				case 12, 13, 3, 1, 5, 6, 16, 17, 7:
+					if !op.fail {
+						back = append(back, i)
+					}
+				}
+			}
+			mix = append(mix, back...)
+			for len(focus) > 0 && len(mix) < 2*len(back) {
+				mix = append(mix, focus...)
 			}
 		} else if round%3 == 0 {
 			for i := range w.ops {
@@ -1730,7 +1982,7 @@ func genC12(r *rng, n int) {
 		} else {
 			sel := map[int]bool{}
 			for len(sel) < 3+r.intn(5) {
-				sel[1+r.intn(23)] = true
+				sel[1+r.intn(26)] = true
 			}
 			for i, op := range w.ops {
 				if sel[op.kind] {
